@@ -76,6 +76,7 @@ fn main() {
                         scen_buf::run_exhaustive(7, 4, &mut out)
                     }
                 }
+                "vecgrid" => scen_exec::run_vecgrid(seed, tier, &mut out),
                 "codeops" => scen_exec::run_codeops(seed, tier, args.get(5).map(|s| s.as_str()).unwrap_or("CODE."), &mut out),
                 "stkgrid" => scen_grid::run(&mut out),
                 "stack-exh" => scen_stack::run_exhaustive(if tier == "thorough" { 4 } else { 3 }, &mut out),
